@@ -532,6 +532,12 @@ def gen_request(rng: random.Random, wild: float = 0.15, snapshot: Optional[List[
     lim = rng.choice([None, None, "1", "2", "3"]) if not w else rng.choice(QVALS)
     cur = rng.choice([None, None, "0", "1", "2"]) if not w else rng.choice(QVALS)
     r = rng.random()
+    if not existing and rng.random() < 0.65:
+        r = 0.2        # nothing of this kind stored yet: create
+    elif target is None and existing and r >= 0.37 and rng.random() < 0.5:
+        target = rng.choice(existing)
+        i = target["id"]
+        seg_id = b64(i, pad)
     bcls = "ok" if not w else rng.choice(["ok", "malformed", "array", "absent", "badct"])
     def with_body(method, segs, payload, sem=None, **kw):
         ct, ab, by = body_for(rng, payload, bcls)
